@@ -65,7 +65,9 @@ Proof. unfold par_okb. destruct (nth i (e_params en) (Leaf KParam "" 0 true)); t
 
 Lemma text_okb_s_sound en props s : text_okb_s en props s = true -> text_ok_s en props s.
 Proof.
-  destruct s as [t e|f args|f args|fam pid o v|tk ti tv|an ao av|mp mi mm mv|]; cbn [text_okb_s text_ok_s]; intros H.
+  destruct s as [t e|f args|f args|fam pid o v|tk ti tv|an ao av|mp mi mm mv| |pmd pf pv|lmd li lv]; cbn [text_okb_s text_ok_s]; intros H.
+  10:{ apply andb_true_iff in H. destruct H as [Hl Hv]. split; [apply loc_okb_leaf; exact Hl | apply text_okb_sound; exact Hv]. }
+  9:{ apply andb_true_iff in H. destruct H as [Hf Hv]. split; apply text_okb_sound; assumption. }
   8:{ exact I. }
   7:{ apply andb_true_iff in H. destruct H as [Hk Hv]. split; apply text_okb_sound; assumption. }
   6:{ apply andb_true_iff in H. destruct H as [Hk Hv]. split; apply text_okb_sound; assumption. }
@@ -89,7 +91,9 @@ Proof. unfold par_okb. destruct (nth i (e_params en) (Leaf KParam "" 0 true)); t
 
 Lemma js_okb_s_sound en props s : js_okb_s en props s = true -> js_ok_s en props s.
 Proof.
-  destruct s as [t e|f args|f args|fam pid o v|tk ti tv|an ao av|mp mi mm mv|]; cbn [js_okb_s js_ok_s]; intros H.
+  destruct s as [t e|f args|f args|fam pid o v|tk ti tv|an ao av|mp mi mm mv| |pmd pf pv|lmd li lv]; cbn [js_okb_s js_ok_s]; intros H.
+  10:{ discriminate H. }
+  9:{ discriminate H. }
   8:{ exact I. }
   7:{ apply andb_true_iff in H. destruct H as [Hk Hv]. split; apply js_okb_sound; assumption. }
   6:{ discriminate H. }
